@@ -534,8 +534,24 @@ def b_sorted(it, x, key=None, reverse=False):
 
 
 def sort_symbolic(it, items, reverse):
-    """insertion sort by forking on comparisons (lists of a few symbolic ints)"""
+    """sorted() of a few symbolic ints: fresh values constrained to be ascending and a rearrangement of the
+    inputs (each output is an input and each input is an output: exact when the inputs are pairwise distinct,
+    which callers must be able to prove).  Falls back to insertion sort by forking otherwise."""
     ctx = it.ctx
+    if 0 < len(items) <= 8 and all(is_intlike(x) for x in items):
+        zs = [zint(x) for x in items]
+        distinct = z3.Distinct(*zs) if len(zs) > 1 else z3.BoolVal(True)
+        if ctx.is_true(distinct):
+            outs = [ctx.fresh('sorted', 'int') for _ in zs]
+            cs = [outs[k] < outs[k + 1] for k in range(len(outs) - 1)]
+            for o in outs:
+                cs.append(z3.Or(*[o == z for z in zs]))
+            for z in zs:
+                cs.append(z3.Or(*[z == o for o in outs]))
+            ctx.assume(z3.And(*cs))
+            if truthy(ctx, reverse):
+                outs.reverse()
+            return outs
     if len(items) > 8:
         raise Unsupported("sorting %d symbolic items" % len(items))
     out = []
@@ -1273,11 +1289,18 @@ def bytes_find(it, b, pat):
 
     def match_at(p):
         return z3.And(*[b.at(p + j) == pat[j] for j in range(k)]) if k else z3.BoolVal(True)
-    q = z3.Int('q!find!%d' % ctx.n_fresh)
-    none_before = z3.ForAll([q], z3.Implies(z3.And(q >= 0, q < r, q + k <= n), z3.Not(match_at(q))))
-    none_at_all = z3.ForAll([q], z3.Implies(z3.And(q >= 0, q + k <= n), z3.Not(match_at(q))))
-    ctx.assume(z3.Or(z3.And(r == -1, none_at_all),
-                     z3.And(r >= 0, r + k <= n, match_at(r), none_before)))
+    if getattr(ctx, 'find_minimality', False):
+        q = z3.Int('q!find!%d' % ctx.n_fresh)
+        none_before = z3.ForAll([q], z3.Implies(z3.And(q >= 0, q < r, q + k <= n), z3.Not(match_at(q))))
+        none_at_all = z3.ForAll([q], z3.Implies(z3.And(q >= 0, q + k <= n), z3.Not(match_at(q))))
+        ctx.assume(z3.Or(z3.And(r == -1, none_at_all),
+                         z3.And(r >= 0, r + k <= n, match_at(r), none_before)))
+    else:
+        # quantifier-free part of the contract: -1, or an occurrence inside the data (minimality of the occurrence
+        # and absence when -1 are not needed by the callers' obligations and are left to the bounded companion)
+        ctx.assumed_models.add("bytes.find(p): -1 or an offset r with data[r:r+len(p)] == p inside the data "
+                               "(least such r: not used in the proof, checked by the bounded companion)")
+        ctx.assume(z3.Or(r == -1, z3.And(r >= 0, r + k <= n, match_at(r))))
     ctx.finds = getattr(ctx, 'finds', []) + [(b, pat, r)]
     return r
 
